@@ -1,5 +1,13 @@
-(* Property C15: a truncated VCD loads as a prefix of the complete one (parser level). *)
-From WV Require Import Model.Base Model.VcdBody Proofs.BodyProofs.
+(* Property C15: a truncated VCD loads as a prefix of the complete one.
+   Pinned: the parser level (prefix_events, cut_at_token_boundary, parse_loop_run), the store level
+   (prefix_history_prefix_report: a history that is a prefix of another is reported as a prefix - time table and
+   every bit-vector signal) and their composition for the single-threaded loader (truncated_vcd_prefix_report).
+   NOT proved: cuts inside a token (the at most one extra event of prefix_events can be a damaged value: known finding
+   class CutInsideChange), real / string variables, the multi-threaded path; decided by the fault enumeration over every
+   cut offset (MANIFEST level_note). *)
+From WV Require Import Model.Base Model.Bits Model.WaveMem Model.VcdBody Spec.TimeSpec Spec.StoreSpec
+  Proofs.StoreProofs Proofs.EncoderProofs Proofs.BodyProofs Proofs.VcdStreamProofs Proofs.PrefixProofs.
+Open Scope N_scope.
 
 (* for every body and every cut: the events of the truncated body are a prefix of the events of the
    complete body, plus at most one event flushed at the end of input (a cut damages only the token it falls in) *)
@@ -23,6 +31,48 @@ Check parse_loop_run :
   parse_loop debug input pos stop_pos st first id acc
   = finish debug (run_bytes debug stop_pos input (mk_ps pos st first id acc)).
 
+(* a history that stops early is reported as a prefix *)
+Check prefix_history_prefix_report :
+  forall (parse_f64 : list byte -> option (list byte)) (lz_compress : list byte -> list byte)
+         (lz_decompress : list byte -> nat -> option (list byte)),
+  (forall d n, (length d <= n)%nat -> lz_decompress (lz_compress d) n = Some d) ->
+  forall cap, 1 <= cap -> cap <= 65536 ->
+  forall id bits tpes ops more e1 e2 b1 t1 b2 t2,
+  (1 <= bits)%nat -> nth_error tpes id = Some (EncBits bits) -> Forall (op_ok id bits) (ops ++ more) ->
+  N.of_nat (count_vcd id (ops ++ more)) * (10 + N.of_nat bits) < 4294967264 ->
+  run_ops parse_f64 lz_compress cap (enc_new tpes) ops = Ok e1 ->
+  run_ops parse_f64 lz_compress cap (enc_new tpes) (ops ++ more) = Ok e2 ->
+  enc_finish lz_compress e1 = Ok (b1, t1) -> enc_finish lz_compress e2 = Ok (b2, t2) ->
+  N.of_nat (length t2) < 4294967296 ->
+  is_prefix t1 t2 /\
+  exists s1 s2 l1 l2,
+    load_signal lz_decompress b1 id (EncBits bits) = Ok s1 /\ observe_signal s1 = Ok l1 /\
+    load_signal lz_decompress b2 id (EncBits bits) = Ok s2 /\ observe_signal s2 = Ok l2 /\
+    is_prefix l1 l2.
+
+(* a VCD body cut where no token is pending, through the single-threaded loader *)
+Check truncated_vcd_prefix_report :
+  forall (parse_f64 : list byte -> option (list byte)) (lz_compress : list byte -> list byte)
+         (lz_decompress : list byte -> nat -> option (list byte)),
+  (forall d n, (length d <= n)%nat -> lz_decompress (lz_compress d) n = Some d) ->
+  forall cap, 1 <= cap -> cap <= 65536 ->
+  forall debug tpes lookup (a b : list byte) stop s id bits e1 e2 b1 t1 b2 t2,
+  run_bytes debug stop a init_state = Running s -> ps_state s = ParsingFirstToken -> ps_first s = [] ->
+  (1 <= bits)%nat -> nth_error tpes id = Some (EncBits bits) ->
+  read_single_stream parse_f64 lz_compress cap debug tpes lookup a stop true = Ok e1 ->
+  read_single_stream parse_f64 lz_compress cap debug tpes lookup (a ++ b) stop true = Ok e2 ->
+  enc_finish lz_compress e1 = Ok (b1, t1) -> enc_finish lz_compress e2 = Ok (b2, t2) ->
+  N.of_nat (length t2) < 4294967296 ->
+  (forall ops, ops_of lookup true false (fst (parse_body debug (a ++ b) stop)) = Some ops ->
+               N.of_nat (count_vcd id ops) * (10 + N.of_nat bits) < 4294967264) ->
+  is_prefix t1 t2 /\
+  exists s1 s2 l1 l2,
+    load_signal lz_decompress b1 id (EncBits bits) = Ok s1 /\ observe_signal s1 = Ok l1 /\
+    load_signal lz_decompress b2 id (EncBits bits) = Ok s2 /\ observe_signal s2 = Ok l2 /\
+    is_prefix l1 l2.
+
 Print Assumptions prefix_events.
+Print Assumptions prefix_history_prefix_report.
+Print Assumptions truncated_vcd_prefix_report.
 Print Assumptions cut_at_token_boundary.
 Print Assumptions parse_loop_run.
